@@ -31,6 +31,9 @@ def units(tier):
     us.append(clientrun.unit("roundtrip_serialize_parse", clientrun.lemma_roundtrip))
     us.append(clientrun.unit("stub_serializes_to_same_frame", clientrun.lemma_parse_serialize))
     us.append(clientrun.unit("crc_split", clientrun.lemma_crc_split))
+    from spec import api
+    from props.common import ground_unit as _gu
+    us.append(_gu("api.signatures", api.signature_lemmas(['pyrtcm.rtcmreader.RTCMReader.parse', 'pyrtcm.rtcmmessage.RTCMMessage.__init__'])))
     return us
 
 
